@@ -443,7 +443,7 @@ def rotated_testvector_by_interpretation(chk, v, g, suffix):
     BARB = sym.sym(gbarb)
     effs = symexec.run_function(v, g, hooks=NOINLINE)[0]
     coef = lambda poly, i_: concrete.lvalue_location(sym.idx(sym.arrow(poly, "coefsT"), I(i_)), {})
-    for nv in (1, 2, 3, 4):
+    for nv in (1, 2, 3, 4, 5, 6, 8, 9):
         for b in range(2 * nv):
             st = concrete.PolyState()
             seen = []
@@ -690,7 +690,7 @@ def check_fft_key(chk, v, rule="R8"):
             problems.append("row copy is %s <- %s, expected ks[i][j][p] <- bk->ks->ks[i][j][p]" % (sym.show(c_["args"][0])[:60], sym.show(c_["args"][1])[:60]))
             okc = False
     if okc and n_ok:
-        for nv, tv, bv in _it.product((1, 2), (1, 2), (2, 4)):          # base = 2^basebit >= 2
+        for nv, tv, bv in _it.product((1, 2, 5), (1, 2, 5), (2, 4, 8)):          # base = 2^basebit >= 2
             env0 = {a[0]: nv, want_n: nv, sym.arrow(ksrc, "t"): tv, sym.arrow(ksrc, "base"): bv}
             try:
                 seen = concrete.visited_tuples(cp, lambda c_: tuple(chain(c_["args"][0])[1]) + tuple(chain(c_["args"][1])[1]), env0)
@@ -717,7 +717,7 @@ def check_fft_key(chk, v, rule="R8"):
             problems.append("conversion is %s <- %s, expected bkFFT[i] <- bk->bk[i]" % (sym.show(c_["args"][0])[:50], sym.show(c_["args"][1])[:50]))
             okv = False
     if okv:
-        for nv in (1, 2, 3):
+        for nv in (1, 2, 3, 5, 8, 9):
             try:
                 seen = concrete.visited_tuples(cv, lambda c_: (sym.ptr_split(c_["args"][0])[1], sym.ptr_split(c_["args"][1])[1]), {nin: nv})
             except concrete.NotEvaluable as e:
